@@ -1603,3 +1603,5 @@ fn exec_codec(case: &W2Case, ctx: &mut Ctx) {
         check(s, ctx);
     }
 }
+
+crate::unoptimised_twin!(W2U, W2, "W2U");
